@@ -1,0 +1,62 @@
+//go:build verif
+
+package authentication
+
+// Contracts checked by /verif/gocv (comment-only file; see /verif/DESIGN.md §3).
+//
+// C28. A request is authenticated only through the guards named in the property, and what is verified is the
+// string-to-sign built from THIS request: method, canonical URI, canonical query, every signed header (all values),
+// the signed-header list, the payload hash (computed from the body unless a payload mode was declared), the timestamp
+// and the credential scope.
+
+// The canonical request is exactly: method, URI, query, canonical headers, signed headers (each followed by a newline)
+// and the payload field; the payload field is the SHA-256 of the body unless the request is presigned or declares one
+// of the payload modes.
+//@ func generateCanonicalRequest
+//@ mode effects
+//@ ensures[C28:payload-hashed-from-the-body] err == nil && !isPresigned && !specDeclaredPayloadMode(result_of(r.Header.Get, 0)) ==>
+//@     called(generateHashedPayload) && result_of(generateHashedPayload, 1) == nil && result != nil && strings.HasSuffix(*result, "\n"+*result_of(generateHashedPayload, 0))
+//@ ensures[C28:canonical-request-covers-the-request] err == nil ==> result != nil && strings.HasPrefix(*result,
+//@     result_of(generateCanonicalHttpMethod, 0)+"\n"+result_of(generateCanonicalURI, 0)+"\n"+result_of(generateCanonicalQueryString, 0)+"\n"+
+//@     result_of(generateCanonicalHeaders, 0)+"\n"+result_of(generateSignedHeaders, 0)+"\n")
+//@ effect[C28:components-of-this-request] every generateCanonicalHeaders($rr, $h) where $rr == r && same($h, headersToInclude)
+//@ effect[C28:signed-header-list-of-this-request] every generateSignedHeaders($rr, $h) where $rr == r && same($h, headersToInclude)
+//@ effect[C28:uri-of-this-request] every generateCanonicalURI($rr) where $rr == r
+//@ effect[C28:query-of-this-request] every generateCanonicalQueryString($rr) where $rr == r
+//@ effect[C28:method-of-this-request] every generateCanonicalHttpMethod($rr) where $rr == r
+
+// The string to sign names the algorithm, the timestamp and the scope it was given and is built from the canonical
+// request of this request with these signed headers.
+//@ func generateStringToSign
+//@ mode effects
+//@ ensures[C28:string-to-sign-names-algorithm-timestamp-scope] err == nil ==> result != nil && strings.HasPrefix(*result, string(algorithm)+"\n"+timestamp+"\n"+scope+"\n")
+//@ ensures[C28:string-to-sign-from-the-canonical-request] err == nil ==> called(generateCanonicalRequest) && result_of(generateCanonicalRequest, 1) == nil
+//@ effect[C28:canonical-request-of-this-request] every generateCanonicalRequest($rr, $h, $p) where $rr == r && same($h, headersToInclude) && $p == isPresigned
+
+// Every value of a signed header is covered: the canonical header value is the join of all values of the header, never
+// just its first value.
+//@ func collectSignedHeaders
+//@ mode effects
+//@ effect[C28:all-values-of-a-header-joined] every strings.Join($v, $sep) where $sep == ","
+//@ effect[C28:never-only-the-first-value] never r.Header.Get(_)
+
+// Security-sensitive headers: Content-MD5 and every x-amz-* header.
+//@ func mustBeSignedHeader
+//@ ensures[C28:sensitive-headers] result == (headerKey == "content-md5" || strings.HasPrefix(headerKey, "x-amz-"))
+
+// checkAuthentication: success means the verifier accepted the string-to-sign generated from this request for the
+// credential's timestamp, scope and signed headers; the verification is reached only for service "s3", request
+// "aws4_request", a scope date equal to the timestamp's date and a clock inside [timestamp-15min, timestamp+expiry].
+//@ func checkAuthentication
+//@ mode effects
+//@ ensures[C28:authenticated-means-verified] authenticated ==> called(verifier.verify) && result_of(verifier.verify, 0) && usedAccessKeyId != nil
+//@ effect[C28:verifies-the-string-to-sign-of-this-request] every verifier.verify($sts, $sig)
+//@     needs before generateStringToSign($rr, $ts, $sc, $h, $pre, $alg) -> ($s, $e)
+//@     where $e == nil && $s != nil && $sts == *$s && $rr == r && $ts == parameters.timestamp && $sc == scope.value && $pre == parameters.isPresigned && $alg == parameters.algorithm &&
+//@         same($h, signedHeadersArray) && $sig == parameters.signature
+//@ effect[C28:service-and-request-of-the-scope] every verifier.verify(_, _) where scope.service == expectedService && scope.request == expectedRequest
+//@ effect[C28:inside-the-validity-window] every verifier.verify(_, _) where !now.Before(parsedTimestamp.Add(-15*time.Minute)) && !now.After(parsedTimestamp.Add(parameters.expirationDuration))
+//@ effect[C28:scope-date-is-the-timestamp-date] every verifier.verify(_, _) needs before parsedTimestamp.Format($l) -> ($d) where $l == "20060102" && scope.date == $d
+//@ effect[C28:key-of-the-named-credential] every parameters.algorithm.newVerifier($ak, $secret, $sc) where $ak == accessKeyId && $secret == expectedCredentials.SecretAccessKey && $sc == scope
+//@ effect[C28:host-header-is-signed] every verifier.verify(_, _) where slices.Contains(signedHeadersArray, "host")
+//@ effect[C28:unsigned-sensitive-header-rejects] every mustBeSignedHeader($k) -> ($m) if $m && !slices.Contains(signedHeadersArray, $k) forbids after loop_continues()
